@@ -13,7 +13,8 @@ import os, re, sys, ast, json, random, shutil, argparse, subprocess, tempfile
 from concurrent.futures import ThreadPoolExecutor
 
 VERIF = os.path.dirname(os.path.dirname(os.path.abspath(__file__)))
-SRC = '/repo/src/pyfvtool'
+REPO = os.environ.get('VP_RUN_REPO') or '/repo'   # vp run --with-repo: a snapshot, undisturbed by seed patches applied to /repo
+SRC = os.path.join(REPO, 'src', 'pyfvtool')
 PROPS = [f"C{i:02d}" for i in range(1, 18)]
 FILES = ['advection.py', 'diffusion.py', 'calculus.py', 'averaging.py', 'boundary.py', 'source.py', 'cell.py', 'face.py', 'mesh.py',
          'pdesolver.py', 'utilities.py']
@@ -113,7 +114,7 @@ def run(c, jobs):
     tmp = tempfile.mkdtemp(prefix='pv_mut_')
     try:
         shutil.copytree(SRC, os.path.join(tmp, 'src', 'pyfvtool'))
-        shutil.copytree('/repo/docs/user_guide', os.path.join(tmp, 'docs', 'user_guide'))
+        shutil.copytree(os.path.join(REPO, 'docs', 'user_guide'), os.path.join(tmp, 'docs', 'user_guide'))
         ch = apply(c, tmp)
         if ch is None:
             return None
